@@ -29,6 +29,10 @@ Fixpoint take_while {A} (p : A -> bool) (l : list A) : list A :=
 Fixpoint drop_while {A} (p : A -> bool) (l : list A) : list A :=
   match l with [] => [] | x :: t => if p x then drop_while p t else l end.
 
+(* applying staged writes (Some v = set, None = delete), each key once *)
+Definition apply_writes {V} (f : bytes -> V) (s : smap V) (p : smap (option bytes)) : smap V :=
+  fold_left (fun acc e => match snd e with Some v => set acc (fst e) (f v) | None => remove acc (fst e) end) p s.
+
 Definition with_stamp0 (l : store) : list item := map (fun kv => (fst kv, snd kv, 0)) l.
 
 (* ====================================================================================== *)
@@ -79,8 +83,7 @@ Definition mem_stage (s : store) (b : mem_batch) (o : bop) : mem_batch :=
   end.
 
 (* Commit (batch.go:147-168): the cache is applied entry by entry (each key once) *)
-Definition mem_apply (s : store) (cache : mem_cache) : store :=
-  fold_left (fun acc e => match snd e with Some v => set acc (fst e) v | None => remove acc (fst e) end) cache s.
+Definition mem_apply (s : store) (cache : mem_cache) : store := apply_writes (fun v => v) s cache.
 
 Definition mem_batch_run (s : store) (ops : list bop) : store * rclass * option conflict :=
   let b := fold_left (mem_stage s) ops (mk_mem_batch [] 0 None) in
@@ -169,7 +172,7 @@ Definition b_commit (s : bstate) (p : pending) : bstate :=
   | [] => s
   | _ =>
       let ts := b_ts s + 1 in
-      mk_bstate (fold_left (fun acc e => match snd e with Some v => set acc (fst e) (v, ts) | None => remove acc (fst e) end) p (b_map s)) ts
+      mk_bstate (apply_writes (fun v => (v, ts)) (b_map s) p) ts
   end.
 
 Definition b_batch (s : bstate) (ops : list bop) : bstate * rclass * option conflict :=
@@ -254,8 +257,7 @@ Fixpoint t_run (s : store) (p : pending) (idx : nat) (ops : list bop) : pending 
       end
   end.
 
-Definition t_apply (s : store) (p : pending) : store :=
-  fold_left (fun acc e => match snd e with Some v => set acc (fst e) v | None => remove acc (fst e) end) p s.
+Definition t_apply (s : store) (p : pending) : store := apply_writes (fun v => v) s p.
 
 (* what the engine answers to txn.Commit *)
 Inductive commit_env := EnvOk | EnvWriteConflict | EnvUncertain | EnvError.
